@@ -15,8 +15,13 @@ def S(name, entry, cfg=(0, 0, 0, 0), cap=100, dec=12, tiers=QT, bound='', **kw):
 
 G = dict(ints=1, addr4=2, addr4x=3, addr6=4, addr6x=5, str=6, bytes=7, err=8, iced=9, empty=10, addr6b=11)
 RT_BOUND = 'all values symbolic (integers full range, IPv4/IPv6 addresses, 12-byte id, key bytes); layout fixed per instance: attribute group %s, key length %d, fingerprint %d, string/byte-string length %d'
+NATTR = dict(ints=5, addr4=4, addr4x=3, addr6=2, addr6b=2, addr6x=2, str=3, bytes=4, iced=1, err=1, empty=0)
 def RT(name, grp, key, fp, ln, tiers=QT):
-    return S(name, 'h_rt', (G[grp], key, fp, ln), cap=128, tiers=tiers, bound=RT_BOUND % (grp, key, fp, ln))
+    # decode()'s loop is unwound exactly as often as the message has attributes: the symbolic outcome of the HMAC comparison is merged
+    # into `done` by the compiler's shared clean-up block, so the exit test after MESSAGE-INTEGRITY is decided by the solver
+    # (unwinding assertion), not by constant folding
+    n = NATTR[grp] + (1 if (grp in ('ints', 'addr6x') and ln) else 0) + (1 if key else 0) + (1 if fp else 0)
+    return S(name, 'h_rt', (G[grp], key, fp, ln), cap=128, dec=max(n, 1), tiers=tiers, bound=RT_BOUND % (grp, key, fp, ln))
 
 def rt_instances():
     out = [RT('rt_ints', 'ints', 2, 1, 1), RT('rt_ints_plain', 'ints', 0, 0, 0), RT('rt_empty', 'empty', 3, 1, 0), RT('rt_empty_fp', 'empty', 0, 1, 0),
@@ -37,7 +42,7 @@ def rt_instances():
     return out
 
 V = dict(mi=1, mi_fp=2, prio_mi=3, user_mi=4, xaddr_mi=5, unk_mi=6, mi_prio=7, fp=8, mi_mi=9)
-VDEC = dict(mi=1, mi_fp=2, prio_mi=2, user_mi=2, xaddr_mi=2, unk_mi=2, mi_prio=2, fp=1, mi_mi=7)   # = maximal number of attributes walked
+VDEC = dict(mi=1, mi_fp=2, prio_mi=2, user_mi=2, xaddr_mi=2, unk_mi=2, mi_prio=2, fp=1, mi_mi=2)   # = maximal number of attributes walked
 MI_BOUND = 'buffer with fixed attribute layout [%s]: header, payload bytes and the length field of the last attribute symbolic; key of 1..%d symbolic bytes (0: empty key)'
 def MI(var, kmax, tiers=QT, name=None, **kw):
     return S(name or ('acc_%s_k%d' % (var, kmax)), 'h_dec_mi', (V[var], kmax, 0, 0), cap=72, dec=VDEC[var], tiers=tiers, bound=MI_BOUND % (var, kmax), cdefs={'VP_UTF8_LATIN1': 1}, **kw)
@@ -55,7 +60,7 @@ stun_instances = rt_instances() + [
     MI('mi', 2), MI('mi', 0), MI('mi_fp', 2), MI('prio_mi', 1), MI('user_mi', 1), MI('xaddr_mi', 1), MI('unk_mi', 1), MI('mi_prio', 1), MI('mi_mi', 1),
     MI('fp', 0), MI('fp', 1), MI('mi_fp', 0, tiers=T), MI('prio_mi', 3, tiers=T), MI('mi', 8, tiers=T),
     ANY('h_dec_any', 'safe_any20', 20, 1, QT, 1), ANY('h_dec_any', 'safe_any24', 24, 1, QT, 1), ANY('h_dec_any', 'safe_any28', 28, 1, T, 2, timeout_s=2400, mem_gb=14, object_bits=12),
-    S('dec_short', 'h_dec_short', cap=40, dec=1, bound='datagrams of every size 0..19, arbitrary bytes'),
+    S('dec_short', 'h_dec_short', cap=40, dec=1, object_bits=12, bound='datagrams of every size 0..19, arbitrary bytes'),
     S('dec_badlen', 'h_dec_badlen', (28, 0, 0, 0), cap=40, dec=1, bound='28-byte datagram: arbitrary header whose length field is not 8, followed by a well-formed PRIORITY attribute'),
     S('peek20', 'h_peek', (20, 0, 0, 0), cap=40, bound='20 arbitrary bytes, valid length field'),
     S('peek28', 'h_peek', (28, 0, 0, 0), cap=40, bound='28 arbitrary bytes, valid length field'),
